@@ -276,6 +276,8 @@ theorem natTokens_append {p : Str} (hp : okPrefix p = true) (x : Str) :
 /-- strict version of `keyLe` (Python `<` on the key tuples) -/
 def keyLt (a b : NatKey) : Prop := keyLe a b = true ∧ keyLe b a = false
 
+instance (a b : NatKey) : Decidable (keyLt a b) := by unfold keyLt; infer_instance
+
 /-- key of `match ++ remainder` -/
 def kPush (v : Int) (k : NatKey) : NatKey := { first := [], rest := (v, k.first) :: k.rest }
 
@@ -397,5 +399,44 @@ theorem keyOf_natToStr_append (n : Nat) {s : Str} (hs : startsDigit s = false) :
 theorem keyOf_natToStr (n : Nat) : keyOf (natToStr n) = kPush n (keyOf []) := by
   have := keyOf_natToStr_append n (s := []) rfl
   simpa using this
+
+
+/-! ### anything non-empty sorts after the empty remainder -/
+
+theorem keyLt_nil_of_ne_nil {s : Str} (h : s ≠ []) : keyLt (keyOf []) (keyOf s) := by
+  have hne := nonEmpty_natTokens h
+  have h0 : keyOf [] = { first := [], rest := [] } := by simp [keyOf, toKey, natTokens]
+  rw [h0]
+  unfold keyOf toKey keyLt keyLe
+  generalize natTokens s = t at hne
+  obtain ⟨f, r⟩ := t
+  cases f with
+  | cons a as => simp [strLe]
+  | nil =>
+    cases r with
+    | nil => rcases hne with h | h <;> simp at h
+    | cons q r => simp [restLe]
+
+/-! ### numerals -/
+
+theorem tokVal_I : tokVal ['I'] = 1 := by decide
+theorem tokVal_II : tokVal ['I', 'I'] = 2 := by decide
+theorem tokVal_III : tokVal ['I', 'I', 'I'] = 3 := by decide
+theorem tokVal_IV : tokVal ['I', 'V'] = 4 := by decide
+
+theorem keyOf_I {s : Str} (h : notHead 'I' s) (h' : notHead 'V' s) : keyOf ('I' :: s) = kPush 1 (keyOf s) := by
+  unfold keyOf; rw [natTokens_I h h', toKey_pushMatch, tokVal_I]
+theorem keyOf_II {s : Str} (h : notHead 'I' s) : keyOf ('I' :: 'I' :: s) = kPush 2 (keyOf s) := by
+  unfold keyOf; rw [natTokens_II h, toKey_pushMatch, tokVal_II]
+theorem keyOf_III (s : Str) : keyOf ('I' :: 'I' :: 'I' :: s) = kPush 3 (keyOf s) := by
+  unfold keyOf; rw [natTokens_III, toKey_pushMatch, tokVal_III]
+theorem keyOf_IV (s : Str) : keyOf ('I' :: 'V' :: s) = kPush 4 (keyOf s) := by
+  unfold keyOf; rw [natTokens_IV, toKey_pushMatch, tokVal_IV]
+
+theorem notHead_iff (c : Char) (s : Str) : notHead c s ↔ s.head? ≠ some c := by
+  cases s <;> simp [notHead]
+
+theorem startsDigit_false_iff (s : Str) : startsDigit s = false ↔ ∀ c, s.head? = some c → isDigit c = false := by
+  cases s <;> simp [startsDigit]
 
 end AgpTpf.C20
